@@ -21,6 +21,7 @@ import (
 	"reflect"
 	"sort"
 	"strings"
+	"time"
 
 	"github.com/KevoDB/kevo/pkg/engine"
 	"github.com/KevoDB/kevo/pkg/engine/interfaces"
@@ -57,6 +58,12 @@ type svcEnumOut struct {
 	Stale      []string     `json:"stale"` // table entries that name no existing method
 	Violations []string     `json:"violations"`
 	Unprobed   []string     `json:"unprobed"`
+	Hangs      []string     `json:"hangs"`
+}
+
+func finish(res *svcEnumOut, out string) error {
+	b, _ := json.MarshalIndent(res, "", " ")
+	return os.WriteFile(out, b, 0644)
 }
 
 // a server stream that collects what the service sends (Scan / TxScan take one)
@@ -212,12 +219,6 @@ func svcEnumCmd(args []string) int {
 		return 2
 	}
 	p := &enumProbe{node: node}
-	resp, err := node.svc.BeginTransaction(context.Background(), &pb.BeginTransactionRequest{ReadOnly: false})
-	if err != nil {
-		fmt.Fprintln(stderr, "begin:", err)
-		return 2
-	}
-	p.txID = resp.TransactionId
 
 	// what is enumerated: (api name, interface or concrete type, receiver factory)
 	engT := reflect.TypeOf((*interfaces.Engine)(nil)).Elem()
@@ -270,7 +271,7 @@ func svcEnumCmd(args []string) int {
 		targets = append(targets, target{"Service", m.Name, m.Type, false, func() reflect.Value { return reflect.ValueOf(node.svc) }})
 	}
 
-	res := svcEnumOut{Rows: []svcEnumRow{}, Stale: []string{}, Violations: []string{}, Unprobed: []string{}}
+	res := svcEnumOut{Rows: []svcEnumRow{}, Stale: []string{}, Violations: []string{}, Unprobed: []string{}, Hangs: []string{}}
 	seen := map[string]bool{}
 	reset := func() error {
 		// the state every call starts from - written through the applier's entry points, the only ones that may
@@ -306,11 +307,22 @@ func svcEnumCmd(args []string) int {
 			res.Rows = append(res.Rows, row)
 			continue
 		}
-		for vi, argv := range variants {
+		needsHandle := t.api == "Service" && (strings.HasPrefix(t.name, "Tx") || strings.HasSuffix(t.name, "Transaction")) && t.name != "BeginTransaction"
+		for vi := range variants {
 			if err := reset(); err != nil {
 				fmt.Fprintln(stderr, "reset:", err)
 				return 2
 			}
+			// nothing is left open between two calls: a call that names a transaction gets a fresh handle (what a client
+			// gets when it asks a read-only node for a read-write transaction), given back afterwards
+			p.txID = "tx-none"
+			if needsHandle || row.Class == "UNCLASSIFIED" {
+				if r2, err := node.svc.BeginTransaction(context.Background(), &pb.BeginTransactionRequest{ReadOnly: false}); err == nil {
+					p.txID = r2.TransactionId
+				}
+			}
+			vs, _ := p.synth(t.mt, t.hasRecv) // synthesised again: the arguments carry the fresh handle
+			argv := vs[vi]
 			before, _ := svcProjectEngine(node.eng)
 			recv := t.recv()
 			if !recv.IsValid() {
@@ -319,7 +331,9 @@ func svcEnumCmd(args []string) int {
 			}
 			m := recv.MethodByName(t.name)
 			var cerr error
-			func() {
+			done := make(chan struct{})
+			go func() {
+				defer close(done)
 				defer func() {
 					if r := recover(); r != nil {
 						cerr = fmt.Errorf("panic: %v", r)
@@ -333,24 +347,35 @@ func svcEnumCmd(args []string) int {
 							tx.Rollback()
 						}
 					}
+					if o.IsValid() && o.Kind() == reflect.Ptr && !o.IsNil() {
+						if br, ok := o.Interface().(*pb.BeginTransactionResponse); ok {
+							node.svc.RollbackTransaction(context.Background(), &pb.RollbackTransactionRequest{TransactionId: br.TransactionId})
+						}
+					}
 				}
 			}()
+			select {
+			case <-done:
+			case <-time.After(10 * time.Second):
+				row.Verdict, row.Detail = "hang", fmt.Sprintf("%s.%s(%s) did not return within 10 s on a read-only node with no transaction open", t.api, t.name, names[vi])
+			}
+			if row.Verdict == "hang" {
+				res.Hangs = append(res.Hangs, row.Detail)
+				res.Rows = append(res.Rows, row)
+				finish(&res, *out)
+				os.Exit(0) // the stuck call may hold locks: nothing after it can be trusted
+			}
 			if t.api == "Transaction" && t.name != "Commit" && t.name != "Rollback" {
 				// the mutation of a transaction reaches the store at commit
 				if tx, ok := recv.Interface().(interfaces.Transaction); ok {
 					tx.Commit()
 				}
 			}
-			if t.api == "Service" && (t.name == "TxPut" || t.name == "TxDelete") {
-				node.svc.CommitTransaction(context.Background(), &pb.CommitTransactionRequest{TransactionId: p.txID})
-			}
-			if t.api == "Service" && strings.Contains(t.name, "Transaction") || t.api == "Service" && (t.name == "TxPut" || t.name == "TxDelete") {
-				// keep one open handle for the following calls
-				if _, ok := node.reg.Get(p.txID); !ok {
-					if r2, err := node.svc.BeginTransaction(context.Background(), &pb.BeginTransactionRequest{ReadOnly: false}); err == nil {
-						p.txID = r2.TransactionId
-					}
+			if p.txID != "tx-none" {
+				if t.name == "TxPut" || t.name == "TxDelete" || row.Class == "UNCLASSIFIED" {
+					node.svc.CommitTransaction(context.Background(), &pb.CommitTransactionRequest{TransactionId: p.txID})
 				}
+				node.svc.RollbackTransaction(context.Background(), &pb.RollbackTransactionRequest{TransactionId: p.txID})
 			}
 			after, _ := svcProjectEngine(node.eng)
 			row.Calls++
@@ -411,8 +436,7 @@ func svcEnumCmd(args []string) int {
 	_ = closeRow
 	node.stop()
 	os.RemoveAll(dir)
-	b, _ := json.MarshalIndent(res, "", " ")
-	if err := os.WriteFile(*out, b, 0644); err != nil {
+	if err := finish(&res, *out); err != nil {
 		fmt.Fprintln(stderr, err)
 		return 2
 	}
